@@ -143,8 +143,16 @@ pub fn step_all(f: &F, inputs: &[&str]) -> (Vec<Result<CV, ()>>, String) {
         let r = mp.step(s).map_err(|e| e.to_string());
         out.push(outcome(&r));
     }
-    (out, residue_string(&mp.residue()))
+    // the state is EVERY field of the reused ParseState except the (constant) format: what the five
+    // slots still hold, plus the character buffer, its recorded length and the cursor. On correct
+    // code the buffer is exactly the last input; a buffer that keeps stale characters beyond its
+    // recorded length is hidden state and must not be merged away.
+    let (env, len_env, head) = mp.buffer_view();
+    let env_s: String = env.iter().collect();
+    (out, format!("{} | env={:?} len_env={} head={}", residue_string(&mp.residue()), env_s, len_env, head))
 }
+
+pub const STATE_CAP: usize = 20_000;
 
 #[derive(Clone, Debug)]
 pub struct S {
@@ -289,7 +297,7 @@ pub fn run(run: &Run) {
          parse; lexical parse / parse_term sequences on the shared static formats; distinct = \
          distinct residues reached + distinct sequences swept",
     );
-    run.assume("merging histories with equal mid_result is sound because reset_to overwrites env, len_env and head, and format is constant");
+    run.assume("states are merged on ALL fields of the reused ParseState except the constant format (mid_result, env, len_env, head), so merging is sound without assumptions about reset_to");
     let tier = run.tier;
     for f in fmts::all() {
         let alpha = if tier == Tier::Thorough { alphabet_thorough(&f) } else { alphabet(&f) };
@@ -302,12 +310,24 @@ pub fn run(run: &Run) {
         for round in 0..2 {
             let explored = Arc::new(Mutex::new(vec![]));
             let m = M { f, alpha: alpha.clone(), fresh: fresh.clone(), explored: explored.clone(), exhaust: true };
-            let checker = m.checker().threads(if round == 0 { 1 } else { 4 }).spawn_bfs().join();
+            // caps: on broken code the buffer can hold overlays of many earlier inputs and the state
+            // space explodes; a capped search is reported as a cap (exhaustive = false), the verdict
+            // comes from the shallowest-violation run and the sweeps either way
+            let checker = m
+                .checker()
+                .threads(if round == 0 { 1 } else { 4 })
+                .target_state_count(STATE_CAP)
+                .timeout(std::time::Duration::from_secs(20))
+                .spawn_bfs()
+                .join();
             counts.push((checker.unique_state_count(), checker.state_count()));
+            if round == 0 && checker.unique_state_count() >= STATE_CAP {
+                run.cap(&format!("[{}] explicit-state search stopped at the cap of {} states", f.name, STATE_CAP));
+            }
             if round == 0 {
                 // a separate run that stops at the first (= shallowest) violation
                 let m1 = M { f, alpha: alpha.clone(), fresh: fresh.clone(), explored: Arc::new(Mutex::new(vec![])), exhaust: false };
-                let first = m1.checker().threads(1).spawn_bfs().join();
+                let first = m1.checker().threads(1).target_state_count(STATE_CAP).timeout(std::time::Duration::from_secs(20)).spawn_bfs().join();
                 if let Some(path) = first.discovery("each input parses as it does alone") {
                     let last = path.last_state().clone();
                     let inputs: Vec<String> = last.history.iter().map(|i| alpha[*i as usize].1.clone()).collect();
@@ -321,7 +341,7 @@ pub fn run(run: &Run) {
                 explored_all = explored.lock().unwrap().clone();
             }
         }
-        if counts[0].0 != counts[1].0 {
+        if counts[0].0 != counts[1].0 && counts[0].0 < STATE_CAP {
             run.cap(&format!("[{}] two runs of the search disagree on the number of unique states: {:?}", f.name, counts));
         }
         run.count(&format!("residue_states_{}", f.name), counts[0].0 as u64);
